@@ -28,6 +28,15 @@ def hdr_text(pgno, sec):
     return [ord(c) for c in s + clock]
 
 
+def fix_flags():
+    """ttxFix* flags of lean/ZvbiModel/Generated/TtxLayout.lean (written by translate/gen_ttx.py from packet.c)"""
+    p = os.path.join(verif.LEAN, "ZvbiModel", "Generated", "TtxLayout.lean")
+    try:
+        return dict((m.group(1), m.group(2) == "true") for m in re.finditer(r"def (ttxFix\w+) : Bool := (\w+)", open(p).read()))
+    except OSError:
+        return {}
+
+
 def rnd_row(rng):
     k = rng.random()
     if k < 0.15:
@@ -245,7 +254,8 @@ def system_pages(rng):
             if rng.random() < 0.6:
                 # mode 3 (DRCS_MODE_6_5_4) makes convert_drcs() write behind drcs.chars[] (finding F18, see NOTES):
                 # the corrupted decoder memory is not modelled, so generated streams avoid it
-                f = [(rng.choice([4, 5, 5, 0]), 4), (0, 3), (0, 11)] + [(rng.choice([0, 1, 2, 4, 14, 15]), 4) for _ in range(48)]
+                modes = list(range(16)) if fix_flags().get("ttxFixF22") else [0, 1, 2, 4, 14, 15]
+                f = [(rng.choice([4, 5, 5, 0]), 4), (0, 3), (0, 11)] + [(rng.choice(modes), 4) for _ in range(48)]
                 tx.add(T.x28_0(mag8, 28, 3, T.pack_bits(f)), "x28")
             for n in rng.sample(range(1, 25), rng.choice([1, 4])):
                 tx.add(T.row(mag8, n, [0x40 + rng.randrange(0x40) for _ in range(40)]), "drcsrow", mag8 * 256 + page)
@@ -441,7 +451,7 @@ class C03(verif.Spec):
                     elif rng.random() < 0.5:
                         desig = rng.randrange(16)
                         trips = [rng.randrange(1 << 18) for _ in range(13)]
-                        if packet == 28 and desig == 3 and trips[0] & 15 in (4, 5):
+                        if packet == 28 and desig == 3 and trips[0] & 15 in (4, 5) and not fix_flags().get("ttxFixF22"):
                             trips[0] &= ~15      # no random X/28/3 DRCS mode tables (F18, see above)
                         b += [T.ham8(desig)] + sum([T.ham24(t) for t in trips], [])
                     else:
